@@ -100,6 +100,11 @@ fn cpu_asm(variant: u8) -> String {
     s += &format!("    add {{x: u8}}, {{y: u8}}      => {}\n", op("0x40 @ x @ y", "0xc0 @ y @ x"));
     s += &format!("    jmp {{addr: u16}}           => {}\n", op("0x50 @ addr", "0xd0 @ addr"));
     s += &format!("    {{r: reg}} <- {{v: i8}}       => {}\n", op("0x6 @ r @ v", "0xe @ r @ v"));
+    s += &format!("    {{r: reg}}, {{v: u8}}         => {}\n", op("0x9 @ r @ v", "0xa @ r @ v"));
+    if variant == 2 {
+        // equally ranked with the rule above, but filed under another prefix of the rule index ("a,")
+        s += "    a, {v: u8}                => 0xa1 @ v\n";
+    }
     if variant == 2 {
         s += "    {r: reg} <- {w: i8}       => 0x7 @ r @ w\n";
         s += "    {v: u8} <- {r: reg}       => 0x8 @ r @ v\n";
@@ -142,7 +147,7 @@ fn main_asm(bank: u8, variant: u8) -> String {
         s += "#bankdef code\n{\n    #addr 0x8000\n    #size 0x200\n    #outp 8 * 0x10\n}\n";
         s += "#bankdef data\n{\n    #addr 0x9000\n    #size 0x20\n    #outp 8 * 0x210\n    #fill\n}\n";
     }
-    s += "#bank code\nstart:\n    ld K\n    ld a, K + 1\n    add K, 2\n.loop:\n    load.b 1\n    load.w 2\n    loadx 3\n    loa 6\n    lo 4\n    l 5\n    b <- -1\n";
+    s += "#bank code\nstart:\n    ld K\n    ld a, K + 1\n    add K, 2\n    a, K + 2\n.loop:\n    load.b 1\n    load.w 2\n    loadx 3\n    loa 6\n    lo 4\n    l 5\n    b <- -1\n";
     s += "    jmp .loop\n    jmp finish\n    mac 3, 4\n    call table.end, g(1, 2)\n";
     if variant == 1 {
         s += ".loop:\n    nop\nK = 6\n";
@@ -169,7 +174,7 @@ fn main_asm(bank: u8, variant: u8) -> String {
             }
         }
     }
-    s += "#bank data\ntable:\n    #d8 f(1, 2, 3, 4), K\n    #d \"ab\"\n.end:\n    #d16 finish.loop\n";
+    s += "#bank data\ntable:\n    #d8 f(1, 2, 3, 4), K\n    #d \"ab\"\n.end:\n    #d16 finish.loop\n    #d inchexstr(\"tbl.txt\")\n    #d incbinstr(\"bits.txt\")\n    #d incbin(\"tbl.txt\")\n";
     if variant == 1 {
         s += "table:\n    #d8 1\n";
     }
@@ -186,7 +191,14 @@ fn job(name: &str, family: &str, expect: &str, cpu: u8, k: i64, inc: u8, bank: u
         name: name.to_string(),
         family: family.to_string(),
         expect: expect.to_string(),
-        files: vec![("main.asm".to_string(), main_asm(bank, main)), ("cpu.asm".to_string(), cpu_asm(cpu)), ("inc.asm".to_string(), inc_asm(k, inc))],
+        // tbl.txt / bits.txt: read through inchexstr / incbinstr / incbin; same names, other contents when `inc` == 1
+        files: vec![
+            ("main.asm".to_string(), main_asm(bank, main)),
+            ("cpu.asm".to_string(), cpu_asm(cpu)),
+            ("inc.asm".to_string(), inc_asm(k, inc)),
+            ("tbl.txt".to_string(), if inc == 1 { "fedcba98" } else { "01234567" }.to_string()),
+            ("bits.txt".to_string(), if inc == 1 { "1111000010100101" } else { "0101101011110000" }.to_string()),
+        ],
         argv,
     }
 }
@@ -204,6 +216,7 @@ pub fn job_set() -> Vec<Job> {
         job("unused-defines", "unused-defines", "diagnostics", 0, 5, 0, 0, 0, &["-dA", "-dB", "-dC=3", "-dstart.zz", "-dD=false", "-dE", "-dF"]),
         job("many-children", "many-children", "success", 0, 5, 0, 0, 2, &[]),
         job("multiple-matches", "multiple-matches", "failure", 2, 5, 0, 0, 0, &[]),
+        job("multiple-matches-range", "multiple-matches", "failure", 2, 300, 0, 0, 0, &[]),
         job("nested-asm-error", "nested-asm-error", "failure", 0, 5, 2, 0, 0, &[]),
         job("unknown-symbols", "unknown-symbols", "failure", 0, 5, 0, 0, 3, &[]),
     ];
